@@ -274,6 +274,7 @@ def link_communities(W, type_clustering='single'):
         raise BCTParamError('Unrecognized clustering type')
 
     # set diagonal to mean weights
+    W = W.copy()
     np.fill_diagonal(W, 0)
     W[range(n), range(n)] = (
         np.sum(W, axis=0) / np.sum(np.logical_not(W), axis=0) +
